@@ -1,5 +1,6 @@
 import Bip39V.Props.C13
 import Bip39V.Props.C06
+import Bip39V.Props.C05
 /-! # C07 — by default fresh mnemonics draw on crypto/rand.Reader and nothing else
 
 What a model can say: the source variable is initialised to `crypto/rand.Reader` (regenerated
@@ -43,6 +44,24 @@ theorem c07_encoding (E : Env) (hD : ∀ x, (E.D x).length = 32) (s : State) (L 
   simp only [step]
   rw [c06_ok E.D hD L n hv script h]
 
+/-- … and an injective one: two sources that deliver different first `4n/3` bytes give different
+mnemonics — no delivered bit is dropped (with C05) -/
+theorem c07_injective_in_source (D : Bytes → Bytes) (hD : ∀ x, (D x).length = 32) (L : Lang) (n : Nat) (hv : ValidWordCount n)
+    (s₁ s₂ : Script) (h₁ : 4 * n / 3 ≤ (delivered s₁).length) (h₂ : 4 * n / 3 ≤ (delivered s₂).length)
+    (h : (newMnemonic D n L.value s₁).1 = (newMnemonic D n L.value s₂).1) :
+    (delivered s₁).take (4 * n / 3) = (delivered s₂).take (4 * n / 3) := by
+  rw [c06_ok D hD L n hv s₁ h₁, c06_ok D hD L n hv s₂ h₂] at h
+  have l₁ : ((delivered s₁).take (4 * n / 3)).length = 4 * n / 3 := by rw [List.length_take]; omega
+  have l₂ : ((delivered s₂).take (4 * n / 3)).length = 4 * n / 3 := by rw [List.length_take]; omega
+  have v₁ : ValidEntLen ((delivered s₁).take (4 * n / 3)).length := by
+    rw [l₁]; unfold ValidEntLen; unfold ValidWordCount at hv; omega
+  have v₂ : ValidEntLen ((delivered s₂).take (4 * n / 3)).length := by
+    rw [l₂]; unfold ValidEntLen; unfold ValidWordCount at hv; omega
+  apply c05_injective D hD L _ _ v₁ v₂
+  rw [c01_encode D hD L _ v₁, c01_encode D hD L _ v₂]
+  exact h
+
+#print axioms c07_injective_in_source
 #print axioms c07_source_facts
 #print axioms c07_initial
 #print axioms c07_invariant
